@@ -13,7 +13,7 @@ RULE = ("histories (tree; `group` run; edits at a chosen logical instant; dedupe
         "with other files still pending, t3 after all hashing but before the report is written, t4 after `group` exited "
         "(edit >= 25 ms later). Edits (to 1..all members of a group): rewrite with the same / a different length, append, "
         "truncate, delete, delete+recreate, replace by a directory, by a dangling symlink, by a symlink to a freshly written "
-        "file, touch. Both commands run under a time zone drawn from UTC and zones east and west of it. Then each of the five operations on the text or JSON report. Oracle: inventory taken just before the "
+        "file, touch. 15% of the reports come from `group --transform cat` and 15% of the dedupe commands get --no-check-size (length comparison off). Both commands run under a time zone drawn from UTC and zones east and west of it. Then each of the five operations on the text or JSON report. Oracle: inventory taken just before the "
         "dedupe command vs after: no content digest held by a regular file may disappear (move: counting the target "
         "directory), and after link / link --soft / dedupe every regular file still reads back the same bytes. "
         "non-trivial = history whose edit changed content of a group member and whose dedupe run would otherwise have "
@@ -101,7 +101,10 @@ def _run(r, scratch, i):
     pd = os.path.join(d, "pause")
     os.makedirs(pd)
     env = gm.env_for(o, home, dict({"FCLONES_VERIF_PAUSE": point, "FCLONES_VERIF_PAUSE_DIR": pd} if point else {}, TZ=tz))
-    argv = [fse(common.fclones_bin())] + gm.group_argv(dict(o, transform=None), ["r0"], fmt)
+    # with --transform (or --no-check-size on the dedupe command) the length comparison is off and only the
+    # modification time protects a changed file
+    gtransform = "cat" if r.random() < 0.15 else None
+    argv = [fse(common.fclones_bin())] + gm.group_argv(dict(o, transform=gtransform), ["r0"], fmt)
     p = subprocess.Popen(argv, env=env, cwd=troot, stdin=subprocess.DEVNULL, stdout=subprocess.PIPE, stderr=subprocess.PIPE)
     reached = False
     if point:
@@ -145,6 +148,8 @@ def _run(r, scratch, i):
     cfg = {}
     if r.random() < 0.3:
         cfg["priority"] = [r.choice(dd.PRIORITIES)]
+    if r.random() < 0.15:
+        cfg["no_check_size"] = True
     log = os.path.join(d, "shim.log")
     senv = shimlog.shim_env(log, [troot] + ([target] if target else []), ficlone=(op == "dedupe"))
     senv["TZ"] = tz
@@ -186,11 +191,12 @@ def _run(r, scratch, i):
     nops = len(dd.log_ops(ev, op))
     content_changed = any(e in ("rewrite-same-len", "rewrite-other-len", "append", "truncate", "delete-recreate", "to-symlink-to-fresh-file")
                           for e in edit_kinds)
-    sig = (sigi, tuple(sorted(set(edit_kinds))), op, fmt, tz) if content_changed else None
+    sig = (sigi, tuple(sorted(set(edit_kinds))), op, fmt, tz, bool(gtransform), bool(cfg.get("no_check_size"))) if content_changed else None
     skipped = dres.err_text().count("Could not determine files to drop") + dres.err_text().count("Skipping file")
     return [ok(sig, {"instant": instant, "edits": edit_kinds, "op": op, "fmt": fmt, "TZ": tz, "ops_done": nops, "skip_warnings": skipped},
                {"instants": [sigi], "edit_kinds": edit_kinds, "dedupe_ops_done": nops, "groups_or_files_skipped": skipped,
-                "pause_reached": 1 if reached else 0, "time_zones": [tz]})]
+                "pause_reached": 1 if reached else 0, "time_zones": [tz],
+                "runs_with_length_check_off": 1 if gtransform or cfg.get("no_check_size") else 0})]
 
 
 def main(tier, seed, cases=None):
